@@ -2,8 +2,10 @@ import AiocoapModel.Blockwise.BlockOptC
 /-!
 Model of the block-wise client `aiocoap.protocol.BlockwiseRequest` (protocol.py):
 
-* the Block1 loop of `_run` (protocol.py:896-1048 of the fixed tree): fragmentation threshold, `_extract_block`,
-  the cursor update after an acknowledgement incl. the server's size reduction, the checks
+* the Block1 loop of `_run` (protocol.py:914-1055 of the fixed tree): fragmentation threshold, `_extract_block`,
+  the cursor update after an acknowledgement (one block, or the KiB of a BERT block) incl. the
+  server's size reduction (a fix: the step from BERT to exponent 6 keeps the cursor, both count
+  KiB), the checks
   (incl. "2.31 Continue without Block1 option" and "Successful response without Block1 option
   before the end of the body", protocol.py:959-982);
 * `_complete_by_requesting_block2` (protocol.py:1140-1220) with
@@ -21,7 +23,7 @@ responses (what the driver runs: the harness records the responses its reference
 to the real `BlockwiseRequest`), `RefServer.interact` closes the loop with the reference
 server (what the theorems about conforming servers talk about).
 
-Out of the model: BERT (szx 7), the Observe option (protocol.py:1016-1031 cancels the lower
+Out of the model: the Observe option (protocol.py:1016-1031 cancels the lower
 observation when an intermediate acknowledgement carries Observe and goes on: no influence on the
 requests or the result, which is what the harness checks on requests with Observe:0), the
 deprecated way of passing a size hint in `app_request.opt.block1` (protocol.py:903-917; the driver
@@ -122,7 +124,7 @@ def threshold (cfg : Cfg) (szx : Nat) : Nat :=
 `BadRequest` of `_extract_block`. Size1 is set on block 0 only. -/
 def nextRequest (cfg : Cfg) (st : B1State) : Option Req :=
   if cfg.payload.length > threshold cfg st.szx then
-    match extractBlock cfg.payload st.cursor st.szx with
+    match extractBlock cfg.payload st.cursor st.szx cfg.maxPayload with
     | none => none
     | some (b, bytes) =>
       some { block1 := some b, block2 := hintOpt cfg,
@@ -141,6 +143,17 @@ arguments: the server's exponent, then `size_exp`, `block_cursor`; result `(size
 def reduce (target : Nat) : Nat → Nat → Nat × Nat
   | 0, cursor => (0, cursor)
   | szx + 1, cursor => if target < szx + 1 then reduce target szx (cursor * 2) else (szx + 1, cursor)
+
+/-- protocol.py:1024-1027: `if size_exp == 7: block_cursor += len(current_block1.payload) // 1024`
+`else: block_cursor += 1` -/
+def advance (st : B1State) (cur : Req) : Nat :=
+  if st.szx = 7 then st.cursor + cur.payload.length / 1024 else st.cursor + 1
+
+/-- protocol.py:1029-1036, the size reduction with the fix: BERT blocks are counted in the same
+1024-byte units as blocks of exponent 6, so `if size_exp == 7 and block1.size_exponent < 7:
+size_exp = 6` precedes the doubling loop. -/
+def reduceB (target szx cursor : Nat) : Nat × Nat :=
+  if szx = 7 ∧ target < 7 then reduce target 6 cursor else reduce target szx cursor
 
 /-- `Message._generate_next_block2_request` (message.py:499-528); `none` is its assertion. The
 request repeats the template (last Block1-phase request) with an empty payload, no Block1 and
@@ -213,7 +226,7 @@ def step (cfg : Cfg) : Phase → Resp → Phase
       let sent := sentBlock1 st cur
       if a.num ≠ sent.num then .done (.error .unexpectedBlock1)   -- "Block number mismatch"
       else
-        let sc := reduce a.szx st.szx (st.cursor + 1)      -- protocol.py:975-982
+        let sc := reduceB a.szx st.szx (advance st cur)    -- protocol.py:1024-1036
         if !sent.more then
           if a.more || r.code == codeContinue
           then .done (.error .unexpectedBlock1)            -- "Server asked for more data at end of body"
